@@ -100,7 +100,7 @@ def step (st : St) (ws : List String) : St × String :=
     match bytesOfHex msg with
     | some msg => (st, joinSp [idx, hexOfBytes (wireErrorMessage (natOf code) msg).toVec])
     | none => (st, idx ++ " bad-op")
-  | ["errlike", idx, reqId, reqQ, code, msg] =>
+  | "errlike" :: idx :: reqId :: reqQ :: code :: msg :: _staleDeclaredLengths =>
     match bytesOfHex reqQ, bytesOfHex msg with
     | some q, some msg => (st, joinSp [idx, hexOfBytes (createErrorResponseLike (natOf reqId) q (natOf code) msg).toVec])
     | _, _ => (st, idx ++ " bad-op")
